@@ -483,6 +483,20 @@ _TRIPLET = re.compile(rb"%([0-9A-Fa-f]{2})")
 _UNRESERVED = set(b"ABCDEFGHIJKLMNOPQRSTUVWXYZabcdefghijklmnopqrstuvwxyz0123456789-._~")
 
 
+def pct_upper(raw: list[int]) -> list[int]:
+    out, k = [], 0
+    for c in raw:
+        if c == 37:
+            out.append(c)
+            k = 2
+        elif k > 0:
+            out.append(c - 32 if 97 <= c <= 102 else c)
+            k -= 1
+        else:
+            out.append(c)
+    return out
+
+
 def norm_unreserved(seg: list[int]) -> list[int]:
     if any(c > 255 for c in seg):
         return seg
@@ -674,6 +688,8 @@ def py_param_verdict(o: dict, fragment: str, want: dict, seg) -> tuple[str, str]
     if fragment != "T":
         return "U", fragment
     w = want_of(want)
+    if o["explicit"] and d["loc"] == "path" and w[0] == "prim" and o["pmode"] == "pct" and pct_upper(seg) == pct_upper(cps(w[1][0])):
+        return "T", ""
     if d["style"] == "json":
         if d["loc"] == "path":
             atoms = text1(seg, o["pmode"])
@@ -1028,7 +1044,7 @@ def run(ctx: Ctx) -> Outcome:
             "C06:%s:%s:%s:%s" % (group, labels[(group, feature, tr)][dims], feature, tr),
             "%s not as the case says (%s): %s value %r -> case %s -> wire [%s] on %s" % (
                 aspect, f0["detail"], ":".join(dims), value_py(el["val"]), f0.get("kwargs", ""), wire, ",".join(trs)),
-            {"element": el, "pipe": pipe, "aspect": aspect.split(":")[0], "transports": trs, "defs": [d for _, d in _DEFS.values()]},
+            {"element": el, "pipe": pipe, "aspect": aspect.split(":")[0], "transports": trs},
         ))
     checked = realgen_crosscheck(ctx, rng, cases, results)
     sample_pool = [(ci, r, v) for (ci, r), v in zip(flat, verdicts) if cases[ci]["kind"] == "param" and v["param"] == "T" and value_features(cases[ci]["val"])]
@@ -1139,10 +1155,7 @@ def replay(ctx: Ctx, data: dict) -> Outcome:
     if data.get("kind") == "spec":
         return out
     el = data["element"]
-    for d in data["defs"]:
-        k = def_key(d)
-        if k not in _DEFS:
-            _DEFS[k] = (len(_DEFS) + 1, d)
+    register_defs([el])
     runs = [r for r in run_element(el) if r.get("pipe") == data["pipe"]]
     sent = [r for r in runs if "obs" in r]
     for r in runs:
